@@ -146,7 +146,51 @@ SAMPLER_SAMPLES = dict(
     cover=["return"],
 )
 
-CONTRACTS = [SAMPLER_SAMPLES, POSTPROC, SEND_SAMPLES, W_DRIVE, MOVE_NEXT, MAY_COMPLETE, JOINPOINT, UPDATE, POST_PROCESS]
+# ------------------------------------------------------------------------------------------------ hand-over of metric records: externalise (with clear) on the driver side, bulk_add on the race-control side
+STORE_FIELDS = {"InMemoryMetricsStore.docs": "list[any]", "InMemoryMetricsStore.logger": "any", "MetricsStore.logger": "any"}
+TO_EXT = dict(
+    target="esrally/metrics.py::InMemoryMetricsStore.to_externalizable",
+    prop="C07",
+    self_type="obj[InMemoryMetricsStore]",
+    params={"clear": "bool"},
+    fields=STORE_FIELDS,
+    ghost_state={"$dumped": "int"},
+    externals={
+        "pickle.dumps": dict(returns="any", ghost_update=("$dumped", "ref(a0)"), ensures=["not isnone(result)"]),
+        "zlib.compress": dict(returns="any", pure=True, uf="ZCOMPRESS"),
+    },
+    returns="any",
+    ensures=[
+        # what is serialised is the list of ALL records gathered so far, and that list itself is left as it was (nothing dropped while serialising)
+        "$dumped == ref(old(self.docs)) and len(old(self.docs)) == old(len(self.docs))",
+        # with clear the store starts over with an EMPTY list of its own -- the records just handed out are never handed out again
+        "implies(clear, len(self.docs) == 0 and ref(self.docs) != ref(old(self.docs)))",
+        "implies(not clear, ref(self.docs) == ref(old(self.docs)))",
+    ],
+    cover=["return"],
+)
+BULK_ADD = dict(
+    target="esrally/metrics.py::MetricsStore.bulk_add",
+    prop="C07",
+    self_type="obj[MetricsStore]",
+    params={"memento": "any"},
+    fields=STORE_FIELDS,
+    ghost_state={"$loaded": "list[any]"},
+    externals={
+        "zlib.decompress": dict(returns="any", pure=True, uf="ZDECOMPRESS"),
+        "pickle.loads": dict(returns="list[any]", ghost_update=("$loaded", "result")),
+        "self._add": dict(event="add"),
+    },
+    loops={0: dict(inv=["nev() == _i", "forall(lambda q: implies(0 <= q and q < _i, evk(q) == 'add' and eva(q, 1, 'any') == $loaded[q]))"])},
+    ensures=[
+        # every record of the hand-over is added exactly once, in order; an empty hand-over (None / b'') adds nothing
+        "implies(memento, nev() == len($loaded) and forall(lambda q: implies(0 <= q and q < len($loaded), evk(q) == 'add' and eva(q, 1, 'any') == $loaded[q])))",
+        "implies(not memento, nev() == 0)",
+    ],
+    cover=["return"],
+)
+
+CONTRACTS = [SAMPLER_SAMPLES, TO_EXT, BULK_ADD, POSTPROC, SEND_SAMPLES, W_DRIVE, MOVE_NEXT, MAY_COMPLETE, JOINPOINT, UPDATE, POST_PROCESS]
 ASSUMPTIONS = ["FIFO delivery (UpdateSamples before JoinPointReached of the same worker); pickle/zlib round trip of externalised metrics is the identity", "queue.Queue.get_nowait returns the oldest item or raises queue.Empty exactly when the queue is empty (Sampler.samples itself is under contract)",
                "the executor thread only touches sampler, complete, cancel"]
 NOT_DECIDED = ["interleaving of periodic ticks, shipments and hand-overs (outside this family)", "the service_time record count of SamplePostprocessor (checked at its call site only), throughput records, MetricsStore._put_metric / to_externalizable / bulk_add (not under contract)"]
